@@ -396,7 +396,7 @@ func checkC07(c *Ctx) {
 	// C07.5 loopback: decoder = receiver model, listener stage = identity, loopback Send = pipe
 	liveSimulation(c, "C07.5", "", "", true)
 	retypingRule(c, "C07.5", "")
-	sendToRule(c, "C07.5", 1)
+	sendToRule(c, "C07.5", 2) // twice in a row: what the wrapper remembers of the first message must not change the second
 	loopbackRule(c, "C07.5")
 }
 
